@@ -60,6 +60,8 @@ def build(case):
     lib = CTX.lib
     dt = np.dtype(case["dtype"])
     rows = [np.array(r).astype(dt) for r in case["rows"]]
+    if case.get("swap") and dt.kind in "iu" and dt.itemsize > 1:
+        rows = [r.astype(dt.newbyteorder()) for r in rows]        # non-native byte order
     v = case["variant"]
     order = case.get("order", "C")
 
@@ -482,8 +484,15 @@ def directed():
     yield {"op": "intervals", "starts": [0, 2, 0], "ends": [5, 5, 1], "row_len": 5, "value": 1}
 
 
+def _with_swap(rng, c):
+    """one case in eight with integer elements gets them in non-native byte order"""
+    if isinstance(c, dict) and "dtype" in c and np.dtype(c["dtype"]).kind in "iu" and rng.random() < 0.12:
+        c["swap"] = True
+    return c
+
+
 def random_case(rng, tier):
-    return gen_case(rng, tier)
+    return _with_swap(rng, gen_case(rng, tier))
 
 
 def classify(case, res):
